@@ -47,6 +47,8 @@ def _ray_cases(draw, tier):
         c["d2"] = [float(x) for x in draw(st.lists(st.integers(-8, 8), min_size=dim, max_size=dim))]
         c["c"] = draw(st.sampled_from([-3.0, -2.0, -1.0, -0.5, 0.5, 1.0, 2.0, 3.0]))
         c["s"] = draw(st.integers(-4, 4)) / 2.0
+    # each ray may be given by two points that lie close together (the crossing is then many segment lengths away)
+    c["short"] = draw(st.sampled_from([0, 0, 0, 8, 12]))
     return c
 
 
@@ -82,6 +84,10 @@ def check_rays(case, ctx):
         elif kind == "coincident":
             d2 = [F(case["c"]) * x for x in d1]
             p2 = [a + F(case["s"]) * x for a, x in zip(p1, d1)]
+    if case.get("short") and kind in ("cross", "grid", "skew"):
+        d1 = [x / 2 ** case["short"] for x in d1]
+        d2 = [x / 2 ** case["short"] for x in d2]
+        ctx.label("rays-given-by-two-nearby-points")
     cr = _cross3(d1, d2)
     diff = [b - a for a, b in zip(p1, p2)] + [F(0)] * (3 - dim)
     triple = sum(x * y for x, y in zip(diff, cr))
@@ -248,6 +254,11 @@ def _voxel_cases(draw, tier):
         c0 = d["P"][0][flat] if draw(st.booleans()) else 0.0          # ... half of the time the coordinate plane itself
         d["P"] = [[c0 if i == flat else c for i, c in enumerate(q)] for q in d["P"]]
         d["flat_axis"] = flat
+    if draw(st.integers(0, 4)) == 0:
+        # a model placed far from the origin (map coordinates): the same shape, the same grid relative to it
+        off = [2.0 ** 19, 2.0 ** 22, 0.0]
+        d["P"] = [[c + o for c, o in zip(q, off)] for q in d["P"]]
+        d["far_from_origin"] = True
     return {"defn": d, "grid": [draw(st.integers(2, 8 if tier == "thorough" else 5)) for _ in range(3)], "cubes": draw(st.booleans()),
             "n": draw(st.integers(2, 5)), "procs": draw(st.sampled_from([1, 1, 1, 2, 3])), "pair": draw(st.integers(0, 3)) == 0}
 
@@ -261,6 +272,7 @@ def check_voxels(case, ctx):
     if any(0 < bb[1][i] - bb[0][i] < 0.125 for i in range(3)) or len(flat_axes) > 1:
         raise Skip("bounding box is thin (but not flat) in some direction, or a line")
     ctx.label("planar-axis-aligned-shape", bool(flat_axes))
+    ctx.label("far-from-origin", bool(d.get("far_from_origin")))
     pts = [list(p) for p in obj.evalpts]
     kw = {"num_procs": case["procs"]} if case.get("procs", 1) > 1 else {}
     if case["n"] % 3 == 0:
@@ -290,7 +302,7 @@ def check_voxels(case, ctx):
     ctx.label("ambiguous-voxels", amb > 0)
     # the grid covers the bounding box (hence every sampled point)
     for i in range(3):
-        ctx.check(min(v[0][i] for v in grid) <= bb[0][i] + 1e-9 and max(v[1][i] for v in grid) >= bb[1][i] - 1e-9, "voxel-grid-does-not-cover-bbox",
+        ctx.check(min(v[0][i] for v in grid) <= bb[0][i] + 1e-9 * (1 + abs(bb[0][i])) and max(v[1][i] for v in grid) >= bb[1][i] - 1e-9 * (1 + abs(bb[1][i])), "voxel-grid-does-not-cover-bbox",
                   "voxel grid spans [%r, %r] on axis %d, bounding box [%r, %r]" % (min(v[0][i] for v in grid), max(v[1][i] for v in grid), i, bb[0][i], bb[1][i]))
     for p in pts:
         ctx.check(any(all(v[0][i] - 1e-7 <= p[i] <= v[1][i] + 1e-7 for i in range(3)) for v in grid), "sampled-point-outside-grid", "sampled point %r lies in no voxel" % (p,))
@@ -342,7 +354,7 @@ def check_voxels(case, ctx):
 # ------------------------------------------------------------------------------------------------ control point lookup
 @st.composite
 def _lookup_cases(draw, tier):
-    d = draw(gen.spline(kinds=("curve", "surface"), max_p=4, max_extra=4, different=True, distinct=True, unclamped="maybe",
+    d = draw(gen.spline(ranges=("far",), kinds=("curve", "surface"), max_p=4, max_extra=4, different=True, distinct=True, unclamped="maybe",
                         affine_range="maybe", normalize="maybe"))
     return {"defn": d, "params": draw(st.lists(gen.params(len(d["degree"])), min_size=1, max_size=4)), "binsearch": draw(st.integers(0, 3)) == 0}
 
